@@ -193,6 +193,13 @@ class TLSStream(ByteStream):
 
                     data = await self.transport_stream.receive()
                 except EndOfStream:
+                    if not self.standard_compatible:
+                        # A ragged EOF is acceptable here, so report it as a plain
+                        # end of stream. Don't pass it on to OpenSSL, which would
+                        # treat it as a fatal error and render the (possibly still
+                        # open) sending direction of the connection unusable too.
+                        raise
+
                     self._read_bio.write_eof()
                 except OSError as exc:
                     self._read_bio.write_eof()
